@@ -963,3 +963,590 @@ func c01mapKeyRepresentable(c *core.Check) {
 	c.Decide(rejects, "map-key-representable", key, c.Prog.Rel(fd.Pos()), "a container-typed map key is refused with an error",
 		"a map whose key type is a list, set or map is spelled map[[]T]V / map[map[K]V]W, which is not a Go type: thriftgo exits 0 and the generated package does not compile (with with_field_mask it does not even parse)")
 }
+
+// ---------------------------------------------------------------------------------------------------------------------
+// C05: getEnum returns "the index of the first included IDL", i.e. an index into the Includes of the AST it was called with.
+// Rule: in doGetEnum an include index obtained from a recursive call is only returned when that call was made on the
+// function's own ast parameter; after stepping into another file the index of the step (r.Index) is returned instead.
+func c05enumIndex(c *core.Check) {
+	fd := c.Prog.FuncDecl("semantic", "doGetEnum")
+	key := "semantic.doGetEnum/include-index"
+	if fd == nil {
+		c.Unknown("anchor", "semantic.doGetEnum", "", "missing")
+		return
+	}
+	info := c.Prog.Pkg("semantic").TypesInfo
+	self := info.Defs[fd.Name]
+	var astParam types.Object
+	if len(fd.Type.Params.List) > 0 && len(fd.Type.Params.List[0].Names) > 0 {
+		astParam = info.Defs[fd.Type.Params.List[0].Names[0]]
+	}
+	isSelf := func(call *ast.CallExpr) bool {
+		fn := rules.Callee(info, call)
+		return fn != nil && types.Object(fn) == self
+	}
+	onOwnAST := func(call *ast.CallExpr) bool {
+		id, ok := ast.Unparen(call.Args[0]).(*ast.Ident)
+		return ok && info.Uses[id] == astParam
+	}
+	// variables that receive the index result of a recursive call on a foreign AST
+	foreign := map[types.Object]bool{}
+	n := 0
+	var bad []string
+	ast.Inspect(fd.Body, func(nd ast.Node) bool {
+		switch x := nd.(type) {
+		case *ast.AssignStmt:
+			if len(x.Rhs) == 1 && len(x.Lhs) == 2 {
+				if call, ok := x.Rhs[0].(*ast.CallExpr); ok && isSelf(call) && len(call.Args) >= 1 {
+					n++
+					if !onOwnAST(call) {
+						if id, ok := x.Lhs[1].(*ast.Ident); ok && id.Name != "_" {
+							o := info.Defs[id]
+							if o == nil {
+								o = info.Uses[id]
+							}
+							foreign[o] = true
+						}
+					}
+				}
+			}
+		case *ast.ReturnStmt:
+			if len(x.Results) == 1 {
+				if call, ok := x.Results[0].(*ast.CallExpr); ok && isSelf(call) && len(call.Args) >= 1 {
+					n++
+					if !onOwnAST(call) {
+						bad = append(bad, "return "+rules.ExprString(call)+" at "+c.Prog.Rel(x.Pos()))
+					}
+				}
+			}
+		}
+		return true
+	})
+	ast.Inspect(fd.Body, func(nd ast.Node) bool {
+		rs, ok := nd.(*ast.ReturnStmt)
+		if !ok {
+			return true
+		}
+		var idx ast.Expr
+		switch len(rs.Results) {
+		case 2:
+			idx = rs.Results[1]
+		case 0:
+			// named results: any foreign-tainted variable that is the named index result
+			for o := range foreign {
+				if fd.Type.Results != nil {
+					for _, f := range fd.Type.Results.List {
+						for _, nm := range f.Names {
+							if info.Defs[nm] == o {
+								bad = append(bad, "named result "+o.Name()+" carries the callee's index at "+c.Prog.Rel(rs.Pos()))
+							}
+						}
+					}
+				}
+			}
+		}
+		if id, ok := idx.(*ast.Ident); ok && foreign[info.Uses[id]] {
+			bad = append(bad, "return … "+id.Name+" at "+c.Prog.Rel(rs.Pos()))
+		}
+		return true
+	})
+	if n == 0 {
+		c.Unknown("enum-index-own-ast", key, c.Prog.Rel(fd.Pos()), "doGetEnum no longer recurses")
+		return
+	}
+	c.Decide(len(bad) == 0, "enum-index-own-ast", key, c.Prog.Rel(fd.Pos()), fmt.Sprintf("%d recursive calls; an index is only passed through from a call on the same AST", n),
+		fmt.Sprintf("an include index computed inside another file is returned to the caller (%v): it is an index into that file's include list, so the constant is bound to the wrong include of the referencing file (or is out of range)", bad))
+}
+
+// ---------------------------------------------------------------------------------------------------------------------
+// C08 (and C01): `service X extends inc.Y` records a reference (include index, name). Rule: in the Go backend's
+// resolveTypesAndValues a name taken from that reference is looked up in the scope the reference selects
+// (s.includes[ref index].Scope), never in the current file's own scope, where an unrelated service of the same name may exist.
+func c08baseScope(c *core.Check) {
+	fd := c.Prog.FuncDecl(golangRel, "Scope.resolveTypesAndValues")
+	key := golangRel + ".(Scope).resolveTypesAndValues/base-service"
+	if fd == nil {
+		c.Unknown("anchor", key, "", "missing")
+		return
+	}
+	info := c.Prog.Pkg(golangRel).TypesInfo
+	// variables that may hold ref.GetName()
+	refNames := map[types.Object]bool{}
+	isRefName := func(e ast.Expr) bool {
+		t := rules.ExprString(e)
+		if strings.HasSuffix(t, ".GetName()") && strings.Contains(t, "ref") || strings.HasSuffix(t, "ref.Name") {
+			return true
+		}
+		if id, ok := ast.Unparen(e).(*ast.Ident); ok && refNames[info.Uses[id]] {
+			return true
+		}
+		return false
+	}
+	ast.Inspect(fd.Body, func(n ast.Node) bool {
+		if as, ok := n.(*ast.AssignStmt); ok && len(as.Lhs) == 1 && len(as.Rhs) == 1 && isRefName(as.Rhs[0]) {
+			if id, ok := as.Lhs[0].(*ast.Ident); ok {
+				o := info.Defs[id]
+				if o == nil {
+					o = info.Uses[id]
+				}
+				refNames[o] = true
+			}
+		}
+		return true
+	})
+	n := 0
+	ast.Inspect(fd.Body, func(nd ast.Node) bool {
+		call, ok := nd.(*ast.CallExpr)
+		if !ok || len(call.Args) != 1 {
+			return true
+		}
+		se, ok := call.Fun.(*ast.SelectorExpr)
+		if !ok || se.Sel.Name != "Service" || !isRefName(call.Args[0]) {
+			return true
+		}
+		n++
+		recv := rules.ExprString(se.X)
+		okr := strings.Contains(recv, "includes[")
+		c.Decide(okr, "base-in-referenced-scope", fmt.Sprintf("%s#%d", key, n), c.Prog.Rel(call.Pos()),
+			"the referenced name is looked up in the scope of the include the reference points to",
+			"the name taken from the reference ("+rules.ExprString(call.Args[0])+") is looked up in "+recv+": a service of the same name in the current file shadows the included base, and the generated client/processor embed the wrong service")
+		return true
+	})
+	c.Min("base-in-referenced-scope", 1)
+}
+
+// ---------------------------------------------------------------------------------------------------------------------
+// C07: output must not depend on what a previous run left in the directory. Rule: inside the call-graph closure of the
+// output entry points, every os.OpenFile that can create or write a file truncates it (O_TRUNC), appends deliberately
+// (O_APPEND) or insists on a new file (O_EXCL); the whole-file helpers (os.WriteFile, ioutil.WriteFile, os.Create) truncate
+// by definition and are only counted.
+func c07truncates(c *core.Check) {
+	prog := c.Prog
+	n, whole := 0, 0
+	var rels []string
+	for rel := range prog.ByRel {
+		rels = append(rels, rel)
+	}
+	sort.Strings(rels)
+	for _, rel := range rels {
+		pk := prog.ByRel[rel]
+		if !(rel == "generator" || strings.HasPrefix(rel, "generator/") || rel == "sdk" || rel == "tool/trimmer" || strings.HasPrefix(rel, "tool/trimmer/")) {
+			continue
+		}
+		info := pk.TypesInfo
+		for _, f := range pk.Syntax {
+			if strings.HasSuffix(prog.Fset.File(f.Pos()).Name(), "_test.go") {
+				continue
+			}
+			for _, d := range f.Decls {
+				fd, ok := d.(*ast.FuncDecl)
+				if !ok || fd.Body == nil {
+					continue
+				}
+				for _, call := range rules.Calls(fd.Body, true) {
+					fn := rules.Callee(info, call)
+					if fn == nil || fn.Pkg() == nil {
+						continue
+					}
+					switch fn.Pkg().Path() + "." + fn.Name() {
+					case "os.WriteFile", "io/ioutil.WriteFile", "os.Create":
+						whole++
+					case "os.OpenFile":
+						if len(call.Args) != 3 {
+							continue
+						}
+						n++
+						key := fmt.Sprintf("%s/os.OpenFile#%d", core.FuncKey(rel, fd), n)
+						flag, ok := rules.ConstInt(info, call.Args[1])
+						if !ok {
+							c.Unknown("output-truncates", key, prog.Rel(call.Pos()), "flags are not constant")
+							continue
+						}
+						const (
+							oWRONLY = 0x1
+							oRDWR   = 0x2
+							oAPPEND = 0x400
+							oCREATE = 0x40
+							oEXCL   = 0x80
+							oTRUNC  = 0x200
+						)
+						writes := flag&(oWRONLY|oRDWR) != 0
+						okf := !writes || flag&(oTRUNC|oAPPEND|oEXCL) != 0
+						c.Decide(okf, "output-truncates", key, prog.Rel(call.Pos()), "opened for writing with truncation (or append/exclusive)",
+							"a file is opened for writing without O_TRUNC: when a previous run left a longer file of the same name its tail survives, so the output depends on earlier runs")
+					}
+				}
+			}
+		}
+	}
+	c.Analysed["whole_file_writes"] = whole
+	if whole+n == 0 {
+		c.Unknown("output-truncates", "generator/file-writes", "", "no file-writing call found in the generator")
+		return
+	}
+	if n == 0 {
+		c.OK("output-truncates", "generator/file-writes", "generator", fmt.Sprintf("%d whole-file writes (truncating by definition), no os.OpenFile", whole))
+	}
+}
+
+// ---------------------------------------------------------------------------------------------------------------------
+// C14 "no input makes the library panic" — three run-time panic shapes, each decided for every function of the package
+// that is reachable from the exported API:
+//  (a) array-index-bounded: an index into a fixed-size array by a signed variable is guarded from below and from above;
+//  (b) scan-index-clamped: when a scanning loop `for ; i < len(S); i++` also advances i inside its body, i can leave the
+//      loop one past the end; a later S[..:i] / S[i] must be preceded by a clamp or test of i against len(S);
+//  (c) nil-phi-deref (go/ssa): a pointer that is nil on some incoming edge of a φ is not dereferenced (field access or
+//      call of a method that reads its receiver) unless a nil test dominates the use.
+func c14runtimePanics(c *core.Check) {
+	prog := c.Prog
+	pk := prog.Pkg(fmRel)
+	info := pk.TypesInfo
+	nA, nB := 0, 0
+	for _, f := range pk.Syntax {
+		if strings.HasSuffix(prog.Fset.File(f.Pos()).Name(), "_test.go") {
+			continue
+		}
+		for _, d := range f.Decls {
+			fd, ok := d.(*ast.FuncDecl)
+			if !ok || fd.Body == nil {
+				continue
+			}
+			fk := core.FuncKey(fmRel, fd)
+			// guards enclosing a node
+			guardsOf := func(target ast.Node) []string {
+				var gs []string
+				var stack []ast.Node
+				ast.Inspect(fd.Body, func(n ast.Node) bool {
+					if n == nil {
+						stack = stack[:len(stack)-1]
+						return true
+					}
+					stack = append(stack, n)
+					if n == target {
+						for _, p := range stack {
+							if is, ok := p.(*ast.IfStmt); ok && is.Body.Pos() <= target.Pos() && target.End() <= is.Body.End() {
+								gs = append(gs, strings.ReplaceAll(rules.ExprString(is.Cond), " ", ""))
+							}
+						}
+					}
+					return true
+				})
+				return gs
+			}
+			// (a)
+			perA := 0
+			ast.Inspect(fd.Body, func(n ast.Node) bool {
+				ix, ok := n.(*ast.IndexExpr)
+				if !ok {
+					return true
+				}
+				t := info.Types[ix.X].Type
+				if p, ok := t.Underlying().(*types.Pointer); ok {
+					t = p.Elem()
+				}
+				if _, isArr := t.Underlying().(*types.Array); !isArr {
+					return true
+				}
+				it, ok := info.Types[ix.Index]
+				if !ok || it.Value != nil {
+					return true
+				}
+				b, ok := it.Type.Underlying().(*types.Basic)
+				if !ok || b.Info()&types.IsInteger == 0 || b.Info()&types.IsUnsigned != 0 {
+					return true
+				}
+				nA++
+				perA++
+				idx := strings.ReplaceAll(rules.ExprString(ix.Index), " ", "")
+				lower, upper := false, false
+				for _, g := range guardsOf(ix) {
+					if strings.Contains(g, idx+">=0") || strings.Contains(g, "0<="+idx) || strings.Contains(g, idx+">-1") {
+						lower = true
+					}
+					if strings.Contains(g, idx+"<=") || strings.Contains(g, idx+"<") {
+						upper = true
+					}
+				}
+				c.Decide(lower && upper, "array-index-bounded", fmt.Sprintf("%s/%s#%d", fk, rules.ExprString(ix), perA), prog.Rel(ix.Pos()),
+					"index tested from below and from above", fmt.Sprintf("the fixed-size array %s is indexed by the signed value %s without both bounds tested (lower %v, upper %v): an id from a path, a JSON document or a struct with a negative field id panics with index out of range", rules.ExprString(ix.X), idx, lower, upper))
+				return true
+			})
+			// (b)
+			ast.Inspect(fd.Body, func(n ast.Node) bool {
+				fs, ok := n.(*ast.ForStmt)
+				if !ok || fs.Cond == nil || fs.Post == nil {
+					return true
+				}
+				be, ok := fs.Cond.(*ast.BinaryExpr)
+				if !ok || be.Op != token.LSS {
+					return true
+				}
+				iv := rules.ExprString(be.X)
+				bound := strings.ReplaceAll(rules.ExprString(be.Y), " ", "")
+				if !strings.HasPrefix(bound, "len(") {
+					return true
+				}
+				extra := false
+				ast.Inspect(fs.Body, func(m ast.Node) bool {
+					switch x := m.(type) {
+					case *ast.IncDecStmt:
+						if rules.ExprString(x.X) == iv {
+							extra = true
+						}
+					case *ast.AssignStmt:
+						for _, l := range x.Lhs {
+							if rules.ExprString(l) == iv {
+								extra = true
+							}
+						}
+					}
+					return true
+				})
+				if !extra {
+					return true
+				}
+				src := strings.TrimSuffix(strings.TrimPrefix(bound, "len("), ")")
+				// uses of iv as a bound/index of src after the loop
+				ast.Inspect(fd.Body, func(m ast.Node) bool {
+					var usesIv bool
+					var node ast.Node
+					switch x := m.(type) {
+					case *ast.SliceExpr:
+						if strings.ReplaceAll(rules.ExprString(x.X), " ", "") == src && x.High != nil && rules.ExprString(x.High) == iv {
+							usesIv, node = true, x
+						}
+					case *ast.IndexExpr:
+						if strings.ReplaceAll(rules.ExprString(x.X), " ", "") == src && rules.ExprString(x.Index) == iv {
+							usesIv, node = true, x
+						}
+					}
+					if !usesIv || node.Pos() < fs.End() {
+						return true
+					}
+					nB++
+					// a clamp `if iv > len(src) { iv = len(src) }` (or a test that returns) between the loop and the use
+					clamped := false
+					ast.Inspect(fd.Body, func(k ast.Node) bool {
+						is, ok := k.(*ast.IfStmt)
+						if !ok || is.Pos() < fs.End() || is.Pos() > node.Pos() {
+							return true
+						}
+						t := strings.ReplaceAll(rules.ExprString(is.Cond), " ", "")
+						if t == iv+">"+bound || t == iv+">="+bound || t == bound+"<"+iv || t == bound+"<="+iv {
+							clamped = true
+						}
+						return true
+					})
+					c.Decide(clamped, "scan-index-clamped", fmt.Sprintf("%s/%s", fk, rules.ExprString(node.(ast.Expr))), prog.Rel(node.Pos()),
+						"the scan index is tested against the length before it is used",
+						fmt.Sprintf("the loop also advances %s inside its body, so it can end at %s+1; %s then slices past the end when the input stops right after an escape character", iv, bound, rules.ExprString(node.(ast.Expr))))
+					return true
+				})
+				return true
+			})
+		}
+	}
+	c.Analysed["array_index_sites"] = nA
+	c.Analysed["scan_index_uses"] = nB
+	c.Min("array-index-bounded", 2)
+	c.Min("scan-index-clamped", 1)
+	// (c)
+	prog.SSA()
+	sp := prog.SSAPkg(fmRel)
+	var fns []*ssa.Function
+	for fn := range ssautilAllFunctions(prog, sp) {
+		if fn.Pos().IsValid() && !strings.HasSuffix(prog.Fset.File(fn.Pos()).Name(), "_test.go") {
+			fns = append(fns, fn)
+		}
+	}
+	sort.Slice(fns, func(i, j int) bool { return fns[i].Pos() < fns[j].Pos() })
+	readsReceiver := func(callee *ssa.Function) bool {
+		if callee == nil || len(callee.Blocks) == 0 || len(callee.Params) == 0 {
+			return true
+		}
+		recv := callee.Params[0]
+		// nil-safe when the entry block tests the receiver against nil before any access
+		for _, ins := range callee.Blocks[0].Instrs {
+			switch x := ins.(type) {
+			case *ssa.FieldAddr:
+				if x.X == ssa.Value(recv) {
+					return true
+				}
+			case *ssa.UnOp:
+				if x.X == ssa.Value(recv) && x.Op == token.MUL {
+					return true
+				}
+			case *ssa.If:
+				if bo, ok := x.Cond.(*ssa.BinOp); ok && (bo.X == ssa.Value(recv) || bo.Y == ssa.Value(recv)) {
+					return false
+				}
+			}
+		}
+		return true
+	}
+	phis, bad := 0, 0
+	for _, fn := range fns {
+		for _, b := range fn.Blocks {
+			for _, ins := range b.Instrs {
+				ph, ok := ins.(*ssa.Phi)
+				if !ok {
+					break
+				}
+				if _, isPtr := ph.Type().Underlying().(*types.Pointer); !isPtr {
+					continue
+				}
+				hasNil := false
+				for _, e := range ph.Edges {
+					if k, ok := e.(*ssa.Const); ok && k.IsNil() {
+						hasNil = true
+					}
+				}
+				if !hasNil {
+					continue
+				}
+				phis++
+				// blocks where ph is known non-nil: dominated by the non-nil successor of a test of ph
+				nonNil := map[*ssa.BasicBlock]bool{}
+				for _, ref := range *ph.Referrers() {
+					bo, ok := ref.(*ssa.BinOp)
+					if !ok || (bo.Op != token.EQL && bo.Op != token.NEQ) {
+						continue
+					}
+					other := bo.Y
+					if bo.Y == ssa.Value(ph) {
+						other = bo.X
+					}
+					if k, ok := other.(*ssa.Const); !ok || !k.IsNil() {
+						continue
+					}
+					for _, r2 := range *bo.Referrers() {
+						iff, ok := r2.(*ssa.If)
+						if !ok {
+							continue
+						}
+						succ := iff.Block().Succs[0]
+						if bo.Op == token.EQL {
+							succ = iff.Block().Succs[1]
+						}
+						if len(succ.Preds) == 1 {
+							for _, bb := range fn.Blocks {
+								if succ.Dominates(bb) {
+									nonNil[bb] = true
+								}
+							}
+						}
+					}
+				}
+				per := 0
+				for _, ref := range *ph.Referrers() {
+					deref := ""
+					switch x := ref.(type) {
+					case *ssa.FieldAddr:
+						if x.X == ssa.Value(ph) {
+							deref = "field access"
+						}
+					case *ssa.UnOp:
+						if x.Op == token.MUL && x.X == ssa.Value(ph) {
+							deref = "load"
+						}
+					case *ssa.Call:
+						if len(x.Call.Args) > 0 && x.Call.Args[0] == ssa.Value(ph) && !x.Call.IsInvoke() {
+							if cal := x.Call.StaticCallee(); cal != nil && cal.Signature.Recv() != nil && readsReceiver(cal) {
+								deref = "call of " + cal.Name() + " (reads its receiver)"
+							}
+						}
+					}
+					if deref == "" || nonNil[ref.Block()] {
+						continue
+					}
+					// correlated flag: a boolean φ of the same block that is a constant on every edge where ph is nil, and
+					// a dominating branch on that flag which excludes those constants (`if all {…} else { f.X }`,
+					// `next, ok = m.Get(k); if ok { next.X }`)
+					if correlatedSafe(ph, ref.Block()) {
+						continue
+					}
+					per++
+					bad++
+					c.Bad("nil-phi-deref", fmt.Sprintf("%s.%s/%s#%d", fmRel, fn.RelString(sp.Pkg), ph.Comment, per), prog.Rel(ref.Pos()),
+						fmt.Sprintf("%s is nil on some path into this point (it is only assigned in some branches) and the %s dereferences it without a nil test: an input that takes the other branch makes the library panic", ph.Comment, deref))
+				}
+			}
+		}
+	}
+	c.Analysed["nilable_phis"] = phis
+	if bad == 0 {
+		c.OK("nil-phi-deref", fmRel+"/nilable-pointers", fmRel, fmt.Sprintf("%d pointer φ-nodes with a nil edge, none dereferenced without a dominating nil test", phis))
+	}
+}
+
+// correlatedSafe reports whether every nil edge of ph is excluded at block b by a dominating test of a boolean φ that lives
+// in ph's block and is constant on those edges.
+func correlatedSafe(ph *ssa.Phi, b *ssa.BasicBlock) bool {
+	for _, ins := range ph.Block().Instrs {
+		q, ok := ins.(*ssa.Phi)
+		if !ok {
+			break
+		}
+		if q == ph {
+			continue
+		}
+		if bt, ok := q.Type().Underlying().(*types.Basic); !ok || bt.Kind() != types.Bool {
+			continue
+		}
+		// value of q on the nil edges
+		var vals []bool
+		okAll := true
+		for i, e := range ph.Edges {
+			if k, isK := e.(*ssa.Const); isK && k.IsNil() {
+				qk, isQK := q.Edges[i].(*ssa.Const)
+				if !isQK || qk.Value == nil {
+					okAll = false
+					break
+				}
+				vals = append(vals, qk.Value.String() == "true")
+			}
+		}
+		if !okAll || len(vals) == 0 {
+			continue
+		}
+		// dominating branches on q (or !q)
+		for _, ref := range *q.Referrers() {
+			var iff *ssa.If
+			neg := false
+			switch x := ref.(type) {
+			case *ssa.If:
+				iff = x
+			case *ssa.UnOp:
+				if x.Op == token.NOT {
+					for _, r2 := range *x.Referrers() {
+						if i2, ok := r2.(*ssa.If); ok {
+							iff, neg = i2, true
+						}
+					}
+				}
+			}
+			if iff == nil {
+				continue
+			}
+			for si, succ := range iff.Block().Succs {
+				if len(succ.Preds) != 1 || !succ.Dominates(b) {
+					continue
+				}
+				qVal := si == 0 // value of the condition on this edge
+				if neg {
+					qVal = !qVal
+				}
+				excluded := true
+				for _, v := range vals {
+					if v == qVal {
+						excluded = false
+					}
+				}
+				if excluded {
+					return true
+				}
+			}
+		}
+	}
+	return false
+}
